@@ -52,7 +52,7 @@ def render_group(rng, g):
 
 def gen_command(rng, formats):
     cmd = {"inputs": [], "groups": [], "quiet": rng.random() < 0.7, "iters": None, "defines": [], "color": None, "flags": [], "mode": "good"}
-    ninputs = 1 if rng.random() < 0.8 else rng.choice([0, 2])
+    ninputs = 1 if rng.random() < 0.75 else rng.choice([0, 2, 2, 3])
     names = ["main.asm", "src/prog.asm", "prog", "a.b.asm", ".hidden", "dir.x/main", "out.bin", "notes.txt", "x.mlb"]
     for i in range(ninputs):
         cmd["inputs"].append(rng.choice(names) if i == 0 else "second%d.asm" % i)
@@ -129,7 +129,7 @@ def expected(cmd, fmts_ok):
         return ("ok", [])
     if not cmd["inputs"]:
         return ("err-before", None)
-    if cmd["mode"] == "bad" or len(cmd["inputs"]) > 1:
+    if cmd["mode"] == "bad":
         return ("asm-fail", None)
     for d in cmd["defines"]:
         if d.startswith("other") or d in ("val=256", "val", "val=false"):
@@ -229,6 +229,8 @@ def run(chk):
     for _ in range(20000 if thorough else 4000):
         c = gen_command(rng, formats)
         argv = render_command(rng, c)
+        # the order of the input files is their order of appearance on the command line
+        c["inputs"] = sorted(c["inputs"], key=lambda n: argv.index(n))
         unw = []
         if rng.random() < 0.05:
             exp = expected(c, okset)
@@ -238,10 +240,10 @@ def run(chk):
     aops, mops = [], []
     for c, argv, unw in cmds:
         prog = GOOD if c["mode"] == "good" else BAD
-        files = [(n, prog) for n in c["inputs"]]
+        files = [(n, prog if i == 0 else "#d8 0x56\n") for i, n in enumerate(c["inputs"])]
         aops.append("drv %d %s %s %s" % (len(files), " ".join("%s %s" % (fw.hx(n), fw.hx(p)) for n, p in files),
                                          ",".join("w:" + fw.hx(u) for u in unw) or "-", " ".join(fw.hx(a) for a in argv)))
-        mode = c["mode"] if len(c["inputs"]) <= 1 else "bad"     # two copies of the program: duplicate constant -> error
+        mode = c["mode"]
         mops.append("drv %s %s %s" % (mode, ",".join(fw.hx(u) for u in unw) or "-", " ".join(fw.hx(a) for a in argv)))
     # normalise doubled blanks from empty file lists
     aops = [re.sub(r"  +", " ", o) for o in aops]
